@@ -128,6 +128,7 @@ class Ref:
 
 
 SELF_PLACE = Place('@self', [])
+STD_PATH_RX = re.compile(r'\b(?:std|core|alloc)::(?:[a-z_0-9]+::)+([A-Za-z_]\w*)')
 
 class ValRef:
     """reference to an rvalue without a home (e.g. &str constants): holds the value itself.  `frame`/`place` make it usable wherever
@@ -859,6 +860,13 @@ class Machine:
         for pat, model in self.models:
             if pat.search(callee):
                 return model(self, callee, args)
+        # rustc prints a path in full when the short name is ambiguous in the crate (e.g. with third-party features enabled:
+        # `std::string::String`, `std::fmt::format`): retry with the std paths shortened the way the models are keyed
+        short = STD_PATH_RX.sub(lambda a: a.group(1), callee)
+        if short != callee:
+            for pat, model in self.models:
+                if pat.search(short):
+                    return model(self, short, args)
         raise Unsupported('no model for callee: ' + callee)
 
     def exec_fn(self, fn, args):
